@@ -10,6 +10,9 @@ CHECKS = {}
 
 NOT_APPLICABLE = {}
 
+# properties whose checks have been run end-to-end on the unchanged tree and are registered in MANIFEST.json
+CLAIMED = ['C01', 'C02', 'C03', 'C06']
+
 # one fragment per property under tools/checks.d/, exec'd in this namespace
 import os as _os, glob as _glob
 for _f in sorted(_glob.glob(_os.path.join(_os.path.dirname(_os.path.abspath(__file__)), 'checks.d', '*.py'))):
